@@ -6,6 +6,16 @@ func init() {
 	const mt = "dnsdata/data_marshaltext.go"
 	const svcb = "dnsdata/svcb/svcb.go"
 	addVariants(
+		variant{Name: "c11-weights-summed-in-uint32(seed c11a)", Props: []string{"C11"}, Expect: []string{"C11.weight-arith|(*db.Wrs).Add"},
+			Edits: []edit{{"db/wrs.go", "\tif rec.Qtype == dns.TypeA {\n\t\tw.V4Count++\n", "\tif rec.Qtype == dns.TypeA {\n\t\tw.V4Count++\n\t\tvar total uint32\n\t\tfor range w.V4 {\n\t\t\ttotal += rec.Weight\n\t\t}\n\t\tif total == 0 && rec.Weight > 0 && len(w.V4) > 0 {\n\t\t\treturn nil\n\t\t}\n"}}},
+		variant{Name: "c11-weights-summed-in-uint64(benign)", Benign: true, Props: []string{"C11"},
+			Edits: []edit{{"db/wrs.go", "\tif rec.Qtype == dns.TypeA {\n\t\tw.V4Count++\n", "\tif rec.Qtype == dns.TypeA {\n\t\tw.V4Count++\n\t\tvar total uint64\n\t\tfor range w.V4 {\n\t\t\ttotal += uint64(rec.Weight)\n\t\t}\n\t\tif total == 0 && rec.Weight > 0 && len(w.V4) > 0 {\n\t\t\treturn fmt.Errorf(\"impossible\")\n\t\t}\n"}}},
+		variant{Name: "c17-unquote-ignores-multibyte(seed c17b)", Props: []string{"C17"}, Expect: []string{"C17.unquote-multibyte|Bunquote|byte(rune)#1|under-multibyte-test"},
+			Edits: []edit{{"dnsdata/quote/quote.go", "\t\tif c < utf8.RuneSelf || !multibyte {", "\t\t_ = multibyte\n\t\tif c <= 255 {"}}},
+		variant{Name: "c17-quote-skips-clean-prefix(seed c17a)", Props: []string{"C17"}, Expect: []string{"C17.escapes|Bquote|strconv.Quote-sees-the-whole-input", "C17.escapes|Bquote|return#"},
+			Edits: []edit{{"dnsdata/quote/quote.go", "\ts := []byte(strconv.Quote(string(b[:])))\n", "\ti := bytes.IndexFunc(b, func(r rune) bool { return r == ',' || r == ':' || r == '\\\\' || !strconv.IsPrint(r) })\n\tif i < 0 {\n\t\treturn b\n\t}\n\ts := []byte(strconv.Quote(string(b[i:])))\n"}, {"dnsdata/quote/quote.go", "\ts = bytes.ReplaceAll(s, []byte(`\\\"`), []byte(`\"`))\n\treturn s\n", "\ts = bytes.ReplaceAll(s, []byte(`\\\"`), []byte(`\"`))\n\treturn append(b[:i:i], s...)\n"}}},
+		variant{Name: "c17-unquote-switch-form(benign)", Benign: true, Props: []string{"C17"},
+			Edits: []edit{{"dnsdata/quote/quote.go", "\t\tif c < utf8.RuneSelf || !multibyte {\n\t\t\tbuf = append(buf, byte(c))\n\t\t} else {\n\t\t\tn := utf8.EncodeRune(runeTmp[:], c)\n\t\t\tbuf = append(buf, runeTmp[:n]...)\n\t\t}", "\t\tswitch {\n\t\tcase multibyte && c >= utf8.RuneSelf:\n\t\t\tn := utf8.EncodeRune(runeTmp[:], c)\n\t\t\tbuf = append(buf, runeTmp[:n]...)\n\t\tdefault:\n\t\t\tbuf = append(buf, byte(c))\n\t\t}"}}},
 		// C11
 		variant{Name: "c11-append-without-length-test", Props: []string{"C11"}, Expect: []string{"C11.bounded|"},
 			Edits: []edit{{wrs, "\t\tif len(items) < w.MaxAnswers {\n\t\t\titems = append(items, wrsItem)\n\t\t} else {", "\t\tif len(items) < w.MaxAnswers || wrsItem.Key > 0.5 {\n\t\t\titems = append(items, wrsItem)\n\t\t} else {"}}},
